@@ -1,0 +1,25 @@
+//go:build verif
+
+package keeper
+
+import (
+	abci "github.com/cometbft/cometbft/abci/types"
+	sdk "github.com/cosmos/cosmos-sdk/types"
+)
+
+// Ghost composition for the deductive checker in /verif (compiled only with -tags verif; contracts in
+// zz_contracts_verif.go): the feemarket part of one block boundary - EndBlock of block h, then BeginBlock of block h+1.
+func verifBlockBoundary(k *Keeper, endCtx, beginCtx sdk.Context) {
+	k.EndBlock(endCtx, abci.RequestEndBlock{})
+	k.BeginBlock(beginCtx, abci.RequestBeginBlock{})
+}
+
+// verifBlockSequence: len(ends) consecutive block boundaries. wanted[i] stands for the gas-wanted counter the ante handlers
+// accumulated during block i (GasWantedDecorator.AnteHandle; the transient store is empty at the start of every block), set
+// through the keeper's own setter.
+func verifBlockSequence(k *Keeper, ends, begins []sdk.Context, wanted []uint64) {
+	for i := range ends {
+		k.SetTransientBlockGasWanted(ends[i], wanted[i])
+		verifBlockBoundary(k, ends[i], begins[i])
+	}
+}
